@@ -58,6 +58,13 @@ Check C06_skip_partial_single_final :
   forall fn (l : list (row * value)) pss,
     is_split l (map (fun ps => fst ps ++ snd ps) pss) -> agg_dom fn (map snd l) ->
     Permutation (final_groups fn (concat (map (skip_partial_out fn) pss))) (ref_groups fn l).
+Check C06_grouping_sets_union :
+  forall fn (ms : list (list bool)) (l : list (row * value)),
+    l <> [] -> NoDup (map (fun mo : list bool * BinNums.Z => set_id (fst mo) (snd mo)) (with_ordinals [] ms)) ->
+    Permutation (grouping_sets_exec fn ms l) (grouping_sets_def fn ms l).
+Check C06_grouping_sets_ids_distinct :
+  map (fun mo : list bool * BinNums.Z => set_id (fst mo) (snd mo))
+      (with_ordinals [] [[false; false]; [false; true]; [true; true]; [false; true]]) = [0; 1; 3; 5]%Z.
 Check C06_nonvacuous :
   let r := fun a b v => ([VInt a; VInt b], VInt v) in
   let b1 := [r 1 1 10; r 2 1 20; r 1 1 30]%Z in
@@ -81,4 +88,6 @@ Print Assumptions C06_spill_merge_eq.
 Print Assumptions C06_spill_replay_ordered.
 Print Assumptions C06_skip_partial_eq.
 Print Assumptions C06_skip_partial_single_final.
+Print Assumptions C06_grouping_sets_union.
+Print Assumptions C06_grouping_sets_ids_distinct.
 Print Assumptions C06_nonvacuous.
